@@ -36,6 +36,7 @@ type ReplayDoc struct {
 	Kind       string            `json:"kind"`
 	Where      string            `json:"where"`
 	Assignment map[string]string `json:"assignment"`
+	Params     map[string]int    `json:"params,omitempty"`
 	Schedule   []string          `json:"schedule,omitempty"`
 	RepoHead   string            `json:"repo_head"`
 	Result     string            `json:"native_result"`
@@ -47,7 +48,7 @@ var replayMu sync.Mutex // one go test at a time per process keeps the build cac
 
 func replayCex(prop string, h *HarnessRun, cx *Counterexample) {
 	doc := &ReplayDoc{Property: prop, Harness: cx.Harness, Package: h.Spec.Pkg, Extra: h.Spec.Extra, Obligation: cx.Obligation, Kind: cx.Kind,
-		Where: cx.Where, Assignment: map[string]string{}, Schedule: cx.Sched, RepoHead: repoHead()}
+		Where: cx.Where, Assignment: map[string]string{}, Schedule: cx.Sched, RepoHead: repoHead(), Params: h.params}
 	for k, v := range cx.Model {
 		doc.Assignment[k] = v
 	}
@@ -117,7 +118,7 @@ func runNative(doc *ReplayDoc) (string, string) {
 		return "no-replay", "overlay: " + err.Error()
 	}
 	assign := filepath.Join(tmp, "assign.json")
-	b, _ := json.Marshal(map[string]interface{}{"assignment": doc.Assignment})
+	b, _ := json.Marshal(map[string]interface{}{"assignment": doc.Assignment, "params": doc.Params})
 	os.WriteFile(assign, b, 0o644)
 	cmd := exec.Command("go", "test", "-vet=off", "-count=1", "-overlay", ovPath, "-run", "^TestZZReplay$", "-v", "-timeout", "120s", doc.Package)
 	cmd.Dir = repoDir
